@@ -274,14 +274,16 @@ def commitGo : Nat → List Sig → List RVec → List RVec → List RVec × Lis
 
 def initTracked (c : Cfg) : List RVec := c.sigs.map (fun s => List.replicate s.width ⟨false, false⟩)
 
+/-- one callback: new tracked states and the lines written -/
+def encodeStep (c : Cfg) (tr : List RVec) : Ev → List RVec × List Str
+  | .tick n d => (tr, [timeLine (tickPs n d)])
+  | .commit vals => commitGo 0 c.sigs tr vals
+  | .clock j b => (tr, if j < c.clocks.length then [scalarLine (ofBool b) (c.clockCode j)] else [])
+  | .reset j b => (tr, if j < c.resets.length then [scalarLine (ofBool b) (c.resetCode j)] else [])
+
 def encodeEvents (c : Cfg) : List RVec → List Ev → List Str
   | _, [] => []
-  | tr, .tick n d :: r => timeLine (tickPs n d) :: encodeEvents c tr r
-  | tr, .commit vals :: r => let p := commitGo 0 c.sigs tr vals; p.2 ++ encodeEvents c p.1 r
-  | tr, .clock j b :: r =>
-    (if j < c.clocks.length then [scalarLine (ofBool b) (c.clockCode j)] else []) ++ encodeEvents c tr r
-  | tr, .reset j b :: r =>
-    (if j < c.resets.length then [scalarLine (ofBool b) (c.resetCode j)] else []) ++ encodeEvents c tr r
+  | tr, e :: r => (encodeStep c tr e).2 ++ encodeEvents c (encodeStep c tr e).1 r
 
 def encodeLines (c : Cfg) (i : Init) (evs : List Ev) : List Str := headerLines c i ++ encodeEvents c (initTracked c) evs
 
